@@ -201,6 +201,11 @@ func TimersNondet(b bool)   {}
 // SchedDeterministic(true): the symbolic executor explores one schedule only
 // (first enabled goroutine, first ready select case).
 func SchedDeterministic(b bool) {}
+
+// AtomicSwitch(true): sync/atomic operations become scheduling points of the
+// symbolic executor (by default only blocking operations, lock acquisitions,
+// channel operations and go statements are).
+func AtomicSwitch(b bool) {}
 func Concretize(x int) int  { return x }
 func IsSymbolicRun() bool   { return false }
 func Yield()                {}
